@@ -58,7 +58,7 @@ class HTTPToHTTPSRedirectMiddleware:
         host: Optional[bytes] = self.host.encode() if self.host is not None else None
         if host is None:
             for key, value in scope["headers"]:
-                if key == b"host":
+                if key.lower() == b"host":  # (raw names with h11_pass_raw_headers)
                     host = value
                     break
         if host is None:
